@@ -280,6 +280,11 @@ func (r *Reconciler) updateInstanceWithCurrentRS(logger logr.Logger, now time.Ti
 			// if the Canary Deployment is not active anymore remove the canary annotations
 			updateDaemonsetAnnotations = clearCanaryAnnotations(newDaemonset)
 		}
+	} else if newDaemonset.Status.Canary != nil {
+		// The canary strategy was removed from the spec during a canary: there is no canary any more. Keeping the
+		// canary status would hide its nodes from the active replica set for ever.
+		newDaemonset.Status.Canary = nil
+		updateDaemonsetAnnotations = clearCanaryAnnotations(newDaemonset)
 	}
 
 	// Check if newDaemonset differs from existing daemonset, and update if so
